@@ -269,8 +269,8 @@ class YP(object):
         self.ATOM_NIL = self.atom("[]")
         self.ATOM_DOT = "."
         self._set_default_eval_context()
-        self._set_builtin_predicates()
         self.eval_blacklist = list(self.eval_context.keys())
+        self._set_builtin_predicates()
 
     def _set_default_eval_context(self):
         self.eval_context = {
